@@ -153,6 +153,9 @@ def verdicts(case, r):
 
 
 def run_case(case, ctx):
+    if case.get("real"):
+        PC.judge_real(case, ctx, "FunctorMap" if case["kind"] == "fmap" else "mul_p_map", True, True)
+        return
     r = run_sim(case)
     ctx.label("drawn" if case.get("_drawn", True) else "swept")
     ctx.label(case["kind"])
@@ -272,4 +275,5 @@ def strategies(tier):
                                   "slow": st.dictionaries(st.sampled_from(["0", "1", "2"]), st.sampled_from([5, 50, 500]), max_size=2),
                                   "sched": schedules.strategy()})
     n = 250000 if big else 4000
-    return [("functormap", fmap, 2 * n // 3), ("mul_p_map", mulp, n // 3)]
+    return [("functormap", fmap, 2 * n // 3), ("mul_p_map", mulp, n // 3),
+            ("real-processes", PC.real_strategy(st.one_of(fmap, mulp)), 300 if big else 14, {"shrink": False})]
